@@ -231,3 +231,30 @@ func CheckTrace(ev []TraceEvent) string {
 	}
 	return ""
 }
+
+// SplicePager serves the pages in FromA from image A and all others from image
+// B (same page size): a database whose index still has entries for rows that
+// the table no longer has, and similar structural damage no checksum reveals.
+type SplicePager struct {
+	A, B  []byte
+	FromA map[int]bool
+	MemPager
+}
+
+func (s *SplicePager) Page(n int, pagesize int) ([]byte, error) {
+	src := s.B
+	if s.FromA[n] {
+		src = s.A
+	}
+	s.Reads++
+	buf := make([]byte, pagesize)
+	off := int64(n-1) * int64(pagesize)
+	if off < 0 || int64(len(src)) < off {
+		return buf, fmt.Errorf("mmap: invalid ReadAt offset %d", off)
+	}
+	c := copy(buf, src[off:])
+	if c < len(buf) {
+		return buf, io.EOF
+	}
+	return buf, nil
+}
